@@ -540,7 +540,7 @@ def decide(prop, tier, seed, keep=False, only=None, jobs=None):
         build_s = build(ctx, harnesses)
         log("   build %.0fs; deciding" % build_s)
         if jobs is None:
-            jobs = 10 if tier == "quick" else 12
+            jobs = 14
         schedule(ctx, harnesses, jobs)
         fmap = {f["id"]: f for f in findings}
         failed = [h for h in harnesses if not h.finding and h.result["verdict"] == "fail"]
